@@ -1,5 +1,6 @@
 import SecsModel.Proofs.SecsILineFacts
 import SecsModel.Proofs.SecsILineMsg
+import SecsModel.Proofs.SecsILineBound
 /-!
 # C17 — SECS-I line protocol delivers accepted messages intact, once; NAKs bad blocks
 
@@ -14,12 +15,20 @@ Proof: a stage invariant (`Proofs.SecsILine.Stage`: per block the line is in one
 `queued → ENQ sent → EOT sent → block sent → ACK/NAK sent → resolved`, with `rxbuf ++ channel` fixed per stage, whatever its split)
 is inductive over all steps (`inv_step`).
 
-Not claimed: T1–T4 timeouts and retries (not in the code), contention (both sides sending), a bound on the number of steps.
+Termination: `Proofs.SecsILine.measure` (blocks still to send × their bytes, bytes in flight — dearer on the line than in a
+buffer —, phase of the two protocol threads) drops with **every** enabled step (`measure_step`), so no schedule is longer than
+`stepBound encs = 1 + Σ (40·|encᵢ| + 95)` and, since a state in which `send_message` has not returned always has an enabled step,
+every scheduler that keeps firing enabled steps (no fairness assumption needed) makes the call return within that many steps.
+
+Not claimed: T1–T4 timeouts and retries (not in the code), contention (both sides sending).
 -/
 namespace SecsModel.Props.C17
 open SecsModel SecsModel.Model.SecsI SecsModel.Model.SecsILine SecsModel.Proofs.SecsILine SecsModel.Proofs.SecsIHdr
 
 deriving instance DecidableEq for Except
+
+/-- a real 13-byte block encoding (S1F1 W, no data) -/
+def enc1bytes : Bytes := [10, 0, 1, 129, 1, 128, 1, 0, 0, 0, 7, 1, 11]
 
 /-- generated handshake bytes are the SEMI E4 values (ENQ 0x05, EOT 0x04, ACK 0x06, NAK 0x15) -/
 theorem handshake_bytes : (ENQ : Nat) = 5 ∧ (EOT : Nat) = 4 ∧ (ACK : Nat) = 6 ∧ (NAK : Nat) = 21 := by decide
@@ -31,28 +40,64 @@ theorem reach (ctx : Ctx) (hfr : ∀ p ∈ ctx.pairs, Framed p.1 p.2) (hbad : Ba
   exact Sys.inv_of_step (sys aIsHost (ctx.pairs.map (·.1)) ctx.fault) (Inv ctx) h0
     (fun s l s' hi hs => inv_step ctx hfr hbad s s' l hi hs) sched s hr
 
+/-- number of scheduler steps (thread steps, application steps, chunk deliveries) a transfer of `encs` can take at most -/
+def stepBound (encs : List Bytes) : Nat := 1 + wTodo encs
+
+example : stepBound [enc1bytes, enc1bytes] = 1 + 2 * (40 * 13 + 95) := by decide
+
+/-- **Bounded runs**: every schedule is at most `stepBound` long (each enabled step lowers the ranking function) -/
+theorem bounded (ctx : Ctx) (hfr : ∀ p ∈ ctx.pairs, Framed p.1 p.2) (hbad : BadOK ctx) (aIsHost : Bool)
+    (sched : List Label) (s : State) (hr : (sys aIsHost (ctx.pairs.map (·.1)) ctx.fault).run sched = some s) :
+    sched.length + measure s ≤ stepBound (ctx.pairs.map (·.1)) := by
+  have h0 : Inv ctx (sys aIsHost (ctx.pairs.map (·.1)) ctx.fault).init := inv_init ctx aIsHost (fun _ _ _ _ => Nat.zero_le _)
+  have := Sys.bound_of_measure (sys aIsHost (ctx.pairs.map (·.1)) ctx.fault) (Inv ctx) measure h0
+    (fun s l s' hi hs => ⟨inv_step ctx hfr hbad s s' l hi hs, measure_step ctx s s' l hi hs⟩) sched s hr
+  have e : measure (sys aIsHost (ctx.pairs.map (·.1)) ctx.fault).init = stepBound (ctx.pairs.map (·.1)) := measure_init _ _ _
+  omega
+
 /-! ## fault-free line -/
 
 /-- **Delivery.**  Perfect line, any direction, any message (`pairs` = its blocks with their encodings), any schedule:
 * the peer has received an initial part of the sender's blocks, in order, nothing else (never a duplicate, never out of order);
 * when `send_message` has returned it returned `True`, the peer has received exactly the sender's blocks, the line transcript is
   exactly `(ENQ, EOT, block, ACK)*` — each block announced by ENQ, sent only after EOT, acknowledged by ACK — and no byte is left over;
-* as long as `send_message` has not returned, something can move (no wedged state). -/
+* as long as `send_message` has not returned, something can move (no wedged state) — and every step that can be taken lowers the
+  ranking function, so the schedule is at most `stepBound` long: **the call returns within `stepBound` steps** of any scheduler that
+  keeps firing enabled steps. -/
 theorem delivery (pairs : List (Bytes × Block)) (hfr : ∀ p ∈ pairs, Framed p.1 p.2) (aIsHost : Bool)
     (sched : List Label) (s : State) (hr : (sys aIsHost (pairs.map (·.1))).run sched = some s) :
     (∃ m, s.b.delivered = (pairs.map (·.2)).take m)
     ∧ (∀ ok, s.a.app = .fin ok →
         ok = true ∧ s.b.delivered = pairs.map (·.2) ∧ s.log = transcript (pairs.map (·.1))
           ∧ s.ab = [] ∧ s.ba = [] ∧ s.a.rxbuf = [] ∧ s.b.rxbuf = [])
-    ∧ ((∀ ok, s.a.app ≠ .fin ok) → ∃ l s', step s l = some s') := by
+    ∧ ((∀ ok, s.a.app ≠ .fin ok) → ∃ l s', step s l = some s')
+    ∧ sched.length ≤ stepBound (pairs.map (·.1)) := by
   let ctx : Ctx := ⟨pairs, none⟩
   have hbad : BadOK ctx := by intro j t v h; cases h
   have hinv : Inv ctx s := reach ctx hfr hbad aIsHost sched s hr
-  refine ⟨?_, ?_, inv_progress ctx hfr hbad s hinv⟩
+  have hb := bounded ctx hfr hbad aIsHost sched s hr
+  refine ⟨?_, ?_, inv_progress ctx hfr hbad s hinv, by simp only [ctx] at hb; omega⟩
   · obtain ⟨m, hm, _⟩ := inv_delivered_prefix ctx s hinv; exact ⟨m, hm⟩
   · intro ok hfin
     have := inv_complete ctx hbad s ok hinv hfin
     simpa [Ctx.expectOutcome, Ctx.expectDelivered, Ctx.expectLog, ctx] using this
+
+/-- **The call returns.**  Every run that cannot be continued (no thread can move, no byte is left to deliver) has `send_message`
+returned `True` with exact delivery — and is at most `stepBound` steps long.  Together with `delivery` (every enabled step is allowed
+at any time): whatever the scheduler does, after at most `stepBound` steps the call has returned. -/
+theorem delivery_returns (pairs : List (Bytes × Block)) (hfr : ∀ p ∈ pairs, Framed p.1 p.2) (aIsHost : Bool)
+    (sched : List Label) (s : State) (hr : (sys aIsHost (pairs.map (·.1))).run sched = some s) (hmax : ∀ l, step s l = none) :
+    s.a.app = .fin true ∧ s.b.delivered = pairs.map (·.2) ∧ s.log = transcript (pairs.map (·.1))
+      ∧ sched.length ≤ stepBound (pairs.map (·.1)) := by
+  obtain ⟨_, d2, d3, d4⟩ := delivery pairs hfr aIsHost sched s hr
+  have hfin : ∃ ok, s.a.app = .fin ok := by
+    apply Classical.byContradiction
+    intro hn
+    obtain ⟨l, s', hl⟩ := d3 (fun ok h => hn ⟨ok, h⟩)
+    rw [hmax l] at hl; cases hl
+  obtain ⟨ok, hok⟩ := hfin
+  obtain ⟨a1, a2, a3, _⟩ := d2 ok hok
+  exact ⟨by rw [hok, a1], a2, a3, d4⟩
 
 /-- **Chunking is irrelevant.**  Two runs of the same transfer under *any two* schedules (chunkings, interleavings) that both let
 `send_message` return agree on its result, on what the peer received and on the complete line transcript. -/
@@ -76,8 +121,9 @@ block.  Then for every schedule:
 * the peer has received an initial part of the blocks *before* `j` — block `j` is never delivered, nor anything after it;
 * when `send_message` has returned it returned `False`, the peer has received exactly the blocks before `j`, and the transcript is
   `(ENQ, EOT, block, ACK)^j, ENQ, EOT, block_j, NAK`;
-* no wedged state before that. -/
-theorem nak_partial (pairs : List (Bytes × Block)) (hfr : ∀ p ∈ pairs, Framed p.1 p.2) (aIsHost : Bool)
+* no wedged state before that, and the schedule is at most `stepBound` long: NAK is sent and the call returns `False` within
+  `stepBound` steps of any scheduler that keeps firing enabled steps. -/
+theorem nak (pairs : List (Bytes × Block)) (hfr : ∀ p ∈ pairs, Framed p.1 p.2) (aIsHost : Bool)
     (j t v : Nat) (enc : Bytes) (blk : Block) (hj : pairs[j]? = some (enc, blk)) (ht1 : 1 ≤ t) (ht2 : t < enc.length)
     (hrej : C16.corruption_rejected enc t v)
     (sched : List Label) (s : State) (hr : (sys aIsHost (pairs.map (·.1)) (some (2 * j + 1, t, v))).run sched = some s) :
@@ -86,7 +132,8 @@ theorem nak_partial (pairs : List (Bytes × Block)) (hfr : ∀ p ∈ pairs, Fram
         ok = false ∧ s.b.delivered = (pairs.take j).map (·.2)
           ∧ s.log = transcript ((pairs.take j).map (·.1)) ++ [(true, [ENQ]), (false, [EOT]), (true, enc), (false, [NAK])]
           ∧ s.ab = [] ∧ s.ba = [] ∧ s.a.rxbuf = [] ∧ s.b.rxbuf = [])
-    ∧ ((∀ ok, s.a.app ≠ .fin ok) → ∃ l s', step s l = some s') := by
+    ∧ ((∀ ok, s.a.app ≠ .fin ok) → ∃ l s', step s l = some s')
+    ∧ sched.length ≤ stepBound (pairs.map (·.1)) := by
   let ctx : Ctx := ⟨pairs, some (j, t, v)⟩
   have hbad : BadOK ctx := by
     intro j' t' v' h
@@ -94,12 +141,33 @@ theorem nak_partial (pairs : List (Bytes × Block)) (hfr : ∀ p ∈ pairs, Fram
     obtain ⟨rfl, rfl, rfl⟩ := h
     exact ⟨enc, blk, hj, ht1, ht2, hrej⟩
   have hinv : Inv ctx s := reach ctx hfr hbad aIsHost sched s hr
-  refine ⟨?_, ?_, inv_progress ctx hfr hbad s hinv⟩
+  have hb := bounded ctx hfr hbad aIsHost sched s hr
+  refine ⟨?_, ?_, inv_progress ctx hfr hbad s hinv, by simp only [ctx] at hb; omega⟩
   · obtain ⟨m, hm, hle⟩ := inv_delivered_prefix ctx s hinv; exact ⟨m, hle j t v rfl, hm⟩
   · intro ok hfin
     have := inv_complete ctx hbad s ok hinv hfin
     simpa [Ctx.expectOutcome, Ctx.expectDelivered, Ctx.expectLog, ctx, hj, cycle, answer] using this
 
+
+/-- **NAK happens and the call returns `False`**: every run that cannot be continued has sent NAK for block `j`, delivered only the
+blocks before it and returned `False`, within `stepBound` steps. -/
+theorem nak_returns (pairs : List (Bytes × Block)) (hfr : ∀ p ∈ pairs, Framed p.1 p.2) (aIsHost : Bool)
+    (j t v : Nat) (enc : Bytes) (blk : Block) (hj : pairs[j]? = some (enc, blk)) (ht1 : 1 ≤ t) (ht2 : t < enc.length)
+    (hrej : C16.corruption_rejected enc t v)
+    (sched : List Label) (s : State) (hr : (sys aIsHost (pairs.map (·.1)) (some (2 * j + 1, t, v))).run sched = some s)
+    (hmax : ∀ l, step s l = none) :
+    s.a.app = .fin false ∧ s.b.delivered = (pairs.take j).map (·.2)
+      ∧ s.log = transcript ((pairs.take j).map (·.1)) ++ [(true, [ENQ]), (false, [EOT]), (true, enc), (false, [NAK])]
+      ∧ sched.length ≤ stepBound (pairs.map (·.1)) := by
+  obtain ⟨_, d2, d3, d4⟩ := nak pairs hfr aIsHost j t v enc blk hj ht1 ht2 hrej sched s hr
+  have hfin : ∃ ok, s.a.app = .fin ok := by
+    apply Classical.byContradiction
+    intro hn
+    obtain ⟨l, s', hl⟩ := d3 (fun ok h => hn ⟨ok, h⟩)
+    rw [hmax l] at hl; cases hl
+  obtain ⟨ok, hok⟩ := hfin
+  obtain ⟨a1, a2, a3, _⟩ := d2 ok hok
+  exact ⟨by rw [hok, a1], a2, a3, d4⟩
 
 /-! ## composed with C16: whole messages -/
 
@@ -116,13 +184,14 @@ theorem delivery_message (h : Header) (body : Bytes) (hr : InRange h) (abody : A
         (∃ m, s.b.delivered = (split h body).take m)
         ∧ (∀ ok, s.a.app = .fin ok →
             ok = true ∧ s.b.delivered = split h body ∧ Message.data s.b.delivered = body ∧ s.log = transcript (pairs.map (·.1)))
-        ∧ ((∀ ok, s.a.app ≠ .fin ok) → ∃ l s', step s l = some s') := by
+        ∧ ((∀ ok, s.a.app ≠ .fin ok) → ∃ l s', step s l = some s')
+        ∧ sched.length ≤ stepBound (pairs.map (·.1)) := by
   obtain ⟨pairs, hp, hall⟩ := message_pairs h body hr abody hcount
   refine ⟨pairs, hp, fun p hpm => (hall p hpm).1, ?_⟩
   intro sched s hrun
-  obtain ⟨d1, d2, d3⟩ := delivery pairs (fun p hpm => (hall p hpm).2.1) aIsHost sched s hrun
+  obtain ⟨d1, d2, d3, d4⟩ := delivery pairs (fun p hpm => (hall p hpm).2.1) aIsHost sched s hrun
   rw [hp] at d1 d2
-  refine ⟨d1, ?_, d3⟩
+  refine ⟨d1, ?_, d3, d4⟩
   intro ok hfin
   obtain ⟨a1, a2, a3, _⟩ := d2 ok hfin
   refine ⟨a1, a2, ?_, a3⟩
@@ -131,7 +200,7 @@ theorem delivery_message (h : Header) (body : Bytes) (hr : InRange h) (abody : A
 /-- **NAK for a message.**  As `delivery_message`, but byte `t ≥ 1` of block `j` arrives as a different byte value `v`: block `j` is never
 delivered; when `send_message` has returned it returned `False` and the transcript ends `ENQ, EOT, enc_j, NAK`.  No hypothesis about
 `Block.decode` is left: C16's corruption theorem supplies it. -/
-theorem nak_message_partial (h : Header) (body : Bytes) (hr : InRange h) (abody : AllBytes body)
+theorem nak_message (h : Header) (body : Bytes) (hr : InRange h) (abody : AllBytes body)
     (hcount : (split h body).length ≤ 32767) (aIsHost : Bool) :
     ∃ pairs : List (Bytes × Block), pairs.map (·.2) = split h body ∧ (∀ p ∈ pairs, Block.encode p.2 = .ok p.1) ∧
       ∀ (j t v : Nat) (enc : Bytes) (blk : Block), pairs[j]? = some (enc, blk) → 1 ≤ t → t < enc.length → v < 256 → enc[t]? ≠ some v →
@@ -140,7 +209,8 @@ theorem nak_message_partial (h : Header) (body : Bytes) (hr : InRange h) (abody 
         ∧ (∀ ok, s.a.app = .fin ok →
             ok = false ∧ s.b.delivered = (split h body).take j
               ∧ s.log = transcript ((pairs.take j).map (·.1)) ++ [(true, [ENQ]), (false, [EOT]), (true, enc), (false, [NAK])])
-        ∧ ((∀ ok, s.a.app ≠ .fin ok) → ∃ l s', step s l = some s') := by
+        ∧ ((∀ ok, s.a.app ≠ .fin ok) → ∃ l s', step s l = some s')
+        ∧ sched.length ≤ stepBound (pairs.map (·.1)) := by
   obtain ⟨pairs, hp, hall⟩ := message_pairs h body hr abody hcount
   refine ⟨pairs, hp, fun p hpm => (hall p hpm).1, ?_⟩
   intro j t v enc blk hj ht1 ht2 hv hne sched s hrun
@@ -148,9 +218,9 @@ theorem nak_message_partial (h : Header) (body : Bytes) (hr : InRange h) (abody 
   obtain ⟨he, _, hrb, hab, hnb⟩ := hall (enc, blk) hmem
   have hrej : C16.corruption_rejected enc t v :=
     corrupted_is_none blk.header blk.data hrb hab hnb enc he t v ht1 ht2 hv hne
-  obtain ⟨d1, d2, d3⟩ := nak_partial pairs (fun p hpm => (hall p hpm).2.1) aIsHost j t v enc blk hj ht1 ht2 hrej sched s hrun
+  obtain ⟨d1, d2, d3, d4⟩ := nak pairs (fun p hpm => (hall p hpm).2.1) aIsHost j t v enc blk hj ht1 ht2 hrej sched s hrun
   rw [hp] at d1
-  refine ⟨d1, ?_, d3⟩
+  refine ⟨d1, ?_, d3, d4⟩
   intro ok hfin
   obtain ⟨a1, a2, a3, _⟩ := d2 ok hfin
   refine ⟨a1, ?_, a3⟩
@@ -159,7 +229,7 @@ theorem nak_message_partial (h : Header) (body : Bytes) (hr : InRange h) (abody 
 /-! ## non-vacuity -/
 
 /-- two real encodings (as produced by `Block.encode`): S1F1 W, block 1 of 1, no data; and a block with two data bytes -/
-def enc1 : Bytes := [10, 0, 1, 129, 1, 128, 1, 0, 0, 0, 7, 1, 11]
+def enc1 : Bytes := enc1bytes
 def blk1 : Block := ⟨⟨7, 1, 1, 1, 1, false, true, true⟩, []⟩
 def enc2 : Bytes := [12, 0, 1, 129, 1, 128, 2, 0, 0, 0, 7, 65, 66, 1, 143]
 def blk2 : Block := ⟨⟨7, 1, 1, 1, 2, false, true, true⟩, [65, 66]⟩
@@ -167,10 +237,10 @@ def blk2 : Block := ⟨⟨7, 1, 1, 1, 2, false, true, true⟩, [65, 66]⟩
 example : Block.encode blk1 = .ok enc1 ∧ Block.encode blk2 = .ok enc2 := by decide +kernel
 theorem framed1 : Framed enc1 blk1 := ⟨10, _, rfl, rfl, by decide +kernel⟩
 theorem framed2 : Framed enc2 blk2 := ⟨12, _, rfl, rfl, by decide +kernel⟩
-/-- the hypothesis of `nak_partial` is satisfiable: a data byte of `enc2` altered -/
+/-- the hypothesis of `nak` is satisfiable: a data byte of `enc2` altered -/
 example : C16.corruption_rejected enc2 11 66 := by unfold C16.corruption_rejected; decide +kernel
 
-/-- the hypotheses of `delivery_message` / `nak_message_partial` are satisfiable: a 300-byte body is two blocks -/
+/-- the hypotheses of `delivery_message` / `nak_message` are satisfiable: a 300-byte body is two blocks -/
 example : InRange ⟨7, 1, 1, 1, 0, false, true, false⟩ ∧ (split ⟨7, 1, 1, 1, 0, false, true, false⟩ (List.replicate 300 65)).length = 2 := by
   decide +kernel
 
